@@ -100,6 +100,48 @@ let handle (line : string) : string =
                 | None -> { s_words = [!bos_id]; s_bo = [(Z0, false)] }) in
            let (c, p) = eval_tree n tl (kd = "R") bos_st tree in
            Printf.sprintf "%s %d %d %s" (hex_of_z p) (List.length c.c_left.l_ptrs) (if c.c_left.l_full then 1 else 0) (fmt_state c.c_right))
+  | "P" :: kd :: rest ->
+      (* partial.hh: P <kind> before.. ; between.. ; after..   (CheckAdjustment of lm/partial_test.cc) *)
+      (match (if kd = "P" || kd = "R" then !tp else !tt) with
+       | LoadError _ -> "not-loaded"
+       | Loaded t ->
+           let tl = alookup t in
+           let n = nat_of_int !order in
+           let dr = (kd = "R") in
+           let rec split3 acc cur = function
+             | ";" :: r -> split3 (List.rev cur :: acc) [] r
+             | x :: r -> split3 acc (n_of_hex x :: cur) r
+             | [] -> List.rev (List.rev cur :: acc) in
+           (match split3 [] [] rest with
+            | [before; between; after] ->
+                let frag ws = eval_tree n tl dr null_state (Rule (false, false, List.map (fun w -> Term w) ws)) in
+                let (cfull, pfull) = frag (before @ between @ after) in
+                let (cb, pb) = frag before and (cm, pm) = frag between and (ca, pa) = frag after in
+                let left = ref cm.c_left and right = ref cm.c_right and got = ref Z0 in
+                let bl = List.length cb.c_right.s_words and al = List.length ca.c_left.l_ptrs in
+                let firstn k l = List.filteri (fun i _ -> i < k) l in
+                for i = 1 to 5 do
+                  if bl >= i then begin
+                    let rv = { s_words = firstn i cb.c_right.s_words; s_bo = firstn i cb.c_right.s_bo } in
+                    let ((a, l'), r') = reveal_before n tl dr rv (nat_of_int (i - 1)) false !left !right in
+                    got := Z.add !got a; left := l'; right := r' end;
+                  if al >= i then begin
+                    let rv = { l_ptrs = firstn i ca.c_left.l_ptrs; l_full = false } in
+                    let ((a, l'), r') = reveal_after n tl dr !left !right rv (nat_of_int (i - 1)) in
+                    got := Z.add !got a; left := l'; right := r' end
+                done;
+                if ca.c_left.l_full then begin
+                  let rv = { l_ptrs = firstn al ca.c_left.l_ptrs; l_full = true } in
+                  let ((a, l'), r') = reveal_after n tl dr !left !right rv (nat_of_int al) in
+                  got := Z.add !got a; left := l'; right := r' end;
+                if cb.c_left.l_full then begin
+                  let k = bl in
+                  let rv = { s_words = firstn k cb.c_right.s_words; s_bo = firstn k cb.c_right.s_bo } in
+                  let ((a, l'), r') = reveal_before n tl dr rv (nat_of_int k) true !left !right in
+                  got := Z.add !got a; left := l'; right := r' end;
+                Printf.sprintf "%s %s %s %s %s %d %d %s" (hex_of_z !got) (hex_of_z pfull) (hex_of_z pb) (hex_of_z pm) (hex_of_z pa)
+                  (List.length !left.l_ptrs) (if !left.l_full then 1 else 0) (fmt_state !right)
+            | _ -> "?"))
   | "K" :: rest ->
       (* State comparison: K w.. ; w..   -> eq sign(compare) lt *)
       let rec split acc = function ";" :: r -> (List.rev acc, r) | x :: r -> split (x :: acc) r | [] -> (List.rev acc, []) in
